@@ -302,7 +302,7 @@ func triage(cfg *PropConfig, run *PropRun, f Failure, root string) (string, bool
 	content["solver_result"] = o.Result
 	content["verifier_output"] = trunc(o.Model, 20000)
 	reproduced := false
-	if o.Result == "sat" && o.ctx != nil {
+	if (o.Result == "sat" || o.Candidate) && o.ctx != nil {
 		inputs := modelInputs(o)
 		content["model_inputs"] = inputs
 		if drv := replayDrivers[cfg.ID]; drv != nil {
@@ -347,6 +347,26 @@ func modelInputs(o *Obl) map[string]string {
 		}
 		if err != nil {
 			return out
+		}
+	}
+	// values of the labelled input terms (echo "INPUT label" followed by the get-value answer)
+	lines := strings.Split(o.Model, "\n")
+	for i := 0; i+1 < len(lines); i++ {
+		l := strings.Trim(strings.TrimSpace(lines[i]), "\"")
+		if !strings.HasPrefix(l, "INPUT ") {
+			continue
+		}
+		// the answer may span several lines: collect until parentheses balance
+		ans, depth := "", 0
+		for j := i + 1; j < len(lines); j++ {
+			ans += lines[j] + " "
+			depth += strings.Count(lines[j], "(") - strings.Count(lines[j], ")")
+			if depth <= 0 {
+				break
+			}
+		}
+		if vs, err := parseSexps(ans); err == nil && len(vs) == 1 && vs[0].isList && len(vs[0].list) == 1 && vs[0].list[0].isList && len(vs[0].list[0].list) == 2 {
+			out["input:"+strings.TrimPrefix(l, "INPUT ")] = vs[0].list[0].list[1].String()
 		}
 	}
 	var walk func(s *sexp)
